@@ -154,11 +154,20 @@ def run(tier, seed):
            '<input id="d" type="radio" name="a">', '<input id="d" type="submit">', '<p id="d" dir="auto"></p>', '<textarea id="d" placeholder="x"></textarea>',
            '<div><iframe id="d"><input type="radio" name="a"><input type="submit"><p lang="en">x</p></iframe></div>',
            '<iframe id="d"><input type="radio" name="a" checked><option selected>o</option></iframe>']
+    DET_W = []
+    DSEL_W = [':disabled', ':enabled', ':read-write', ':read-only', ':default', ':checked', ':required', ':indeterminate', ':nth-child(1)',
+              ':only-of-type', ':root', ':has(> input)', ':dir(ltr)', ':lang(en)', ':placeholder-shown', 'input:not(:disabled)']
+    # every kind of wrapper the HTML-only definitions mention (or not), parentless or directly below an iframe, holding controls
+    for w_ in ('legend', 'fieldset', 'optgroup', 'select', 'label', 'datalist', 'details', 'summary', 'object', 'template', 'map', 'table',
+               'td', 'svg', 'math', 'button', 'a', 'option', 'textarea', 'ul', 'html', 'body', 'head'):
+        DET_W.append(f'<{w_} id="d"><input id="a"><button>x</button><option>o</option><legend><input></legend></{w_}>')
+        DET_W.append(f'<iframe id="d"><{w_}><input><textarea></textarea><option selected>o</option></{w_}><{w_}><select><option>o</option></select></{w_}></iframe>')
+        DET_W.append(f'<fieldset id="d" disabled><{w_}><input></{w_}><{w_}><button>b</button></{w_}></fieldset>')
     DSEL = ['*', ':root', 'p', ':-soup-contains(x)', ':-soup-contains-own(in)', ':indeterminate', ':default', ':empty', ':has(iframe)', 'iframe ~ *',
             ':nth-child(1)', ':nth-last-child(1)', ':only-of-type', ':lang(en)', ':dir(ltr)', ':scope', ':not(p)', ':in-range', ':checked', 'div p, form input',
             ':enabled', ':disabled', ':required', ':placeholder-shown', ':read-write', ':link', ':defined', 'input ~ *', ':has(> input)']
-    for mk in DET:
-        for parser in ('html.parser', 'lxml', 'html5lib'):
+    for mk in DET + DET_W:
+        for parser in (('html.parser', 'lxml', 'html5lib') if mk in DET or tier != 'quick' else ('html.parser',)):
             with warnings.catch_warnings():
                 warnings.simplefilter('ignore')
                 frag = BeautifulSoup(mk, parser).find(id='d')
@@ -166,7 +175,7 @@ def run(tier, seed):
                     continue
                 frag = frag.extract()
                 targets_ = [frag] + list(frag.find_all(True))[:4]
-                for s in DSEL:
+                for s in (DSEL if mk in DET else DSEL_W):
                     for tgt in targets_:
                         for opname, fn in (('select', lambda: sv.select(s, tgt)), ('match', lambda: sv.match(s, tgt)),
                                            ('closest', lambda: sv.closest(s, tgt)), ('filter', lambda: sv.filter(s, tgt))):
